@@ -21,6 +21,8 @@ class Budget:
     tier = 'quick'
     use_cvc5 = True
     crosscheck = True
+    thr_ms = 5000         # solver budget for tolerance clauses on threshold paths (quick tier)
+    standin = 4           # witnesses of a threshold path evaluated by the bounded stand-in
 
 
 # ---------------------------------------------------------------------------------------------
@@ -572,6 +574,10 @@ class SymChecker:
             self._add(Oblig(name, idx, 'proved', 'pnf-cases', time.time() - t))
             return
 
+        if _interval_small(r, bound):
+            self._add(Oblig(name, idx, 'proved', 'interval', time.time() - t))
+            return
+
         def bad(ev):
             return abs(r.eval(ev)) > bound.eval(ev) * (1 + 1e-6) + 1e-300
         cand = self._refute_numeric(bad)
@@ -579,7 +585,13 @@ class SymChecker:
             self._add(Oblig(name, idx, 'refuted', 'sample+replay', time.time() - t,
                             'residual exceeds the tolerance at a sampled point', cand))
             return
-        s = sc.solver(Budget.z3_ms)
+        thr = sc.is_threshold_path()
+        if thr:
+            # a path taken because a threshold test succeeded: the tolerance inequality itself has to be
+            # decided.  Witnesses of the path (solver models) are evaluated first: they refute cheaply.
+            if self._standin(name, idx, bad, t):
+                return
+        s = sc.solver(min(Budget.z3_ms, Budget.thr_ms) if thr else Budget.z3_ms)
         for h in self.hints:
             s.add(h)
         n, d = sc.poly_z3(r.n), sc.poly_z3(r.d)
@@ -595,14 +607,61 @@ class SymChecker:
         if rr == z3.sat:
             if self._try_models(name, idx, s, bad, t):
                 return
-            self._add(Oblig(name, idx, 'undecided', 'z3', time.time() - t, 'solver model did not reproduce on the real code'))
+            if thr:
+                self._add(Oblig(name, idx, 'open', 'standin', time.time() - t,
+                                'tolerance clause on a threshold path: solver models did not reproduce on the real code; bounded stand-in: '
+                                '%d witnesses of the path evaluated on the real code, none violates the tolerance' % self._standin_n))
+            else:
+                self._add(Oblig(name, idx, 'undecided', 'z3', time.time() - t, 'solver model did not reproduce on the real code'))
             return
-        r2 = self._cvc5(s)
+        r2 = self._cvc5(s) if not thr or Budget.tier == 'thorough' else 'skipped'
         if r2 == 'unsat':
             self._add(Oblig(name, idx, 'proved', 'cvc5', time.time() - t))
+        elif thr:
+            self._add(Oblig(name, idx, 'open', 'standin', time.time() - t,
+                            'tolerance clause on a threshold path left open by z3 (%s) / cvc5 (%s); bounded stand-in: %d witnesses of the '
+                            'path evaluated on the real code, none violates the tolerance' % (rr, r2, self._standin_n)))
         else:
             self._add(Oblig(name, idx, 'undecided', 'z3+cvc5', time.time() - t,
                             'solver: %s / %s; residual %s' % (rr, r2, repr(r)[:300])))
+
+    _standin_n = 0
+
+    def _standin(self, name, idx, bad, t0):
+        """bounded stand-in (never counted as proved): evaluate the clause at witnesses of the path
+        obtained from solver models spread by blocking clauses; True iff one refutes and replays"""
+        key = len(sc.CTX.pc)
+        if getattr(self, '_standin_key', None) != key:
+            self._standin_key = key
+            self._standin_pts = []
+            s = sc.solver(min(Budget.z3_ms, 10000))
+            for _ in range(Budget.standin):
+                if sc.check(s) != z3.sat:
+                    break
+                m = s.model()
+                vals = model_to_values(self.env, m)
+                self._standin_pts.append(vals)
+                blk = []
+                for nm in list(sc.CTX.inputs)[:8]:
+                    v = m.eval(sc.CTX.zv(nm), model_completion=True)
+                    d = sc.CTX.zv(nm) - v
+                    blk.append(z3.Or(d > z3.RealVal('1/1000'), d < z3.RealVal('-1/1000')))
+                if not blk:
+                    break
+                s.add(z3.Or(blk))
+        self._standin_n = len(self._standin_pts)
+        for vals in self._standin_pts:
+            try:
+                ev = sc.evaluate_atoms(vals)
+                ok, _ = point_ok(ev)
+                isbad = ok and bad(ev)
+            except (ValueError, ZeroDivisionError, OverflowError, KeyError):
+                isbad = False
+            if isbad and self._confirm(name, vals):
+                self._add(Oblig(name, idx, 'refuted', 'standin+replay', time.time() - t0,
+                                'tolerance exceeded at a witness of the threshold path; reproduced on the real code', vals))
+                return True
+        return False
 
     def _try_models(self, name, idx, s, bad, t0):
         for k in range(6):
@@ -649,26 +708,57 @@ class SymChecker:
             return 'error:%s' % type(e).__name__
 
 
+_CVC5_SCRIPT = r"""
+import sys, cvc5
+from cvc5 import InputParser, SymbolManager
+s = cvc5.Solver()
+s.setOption('nl-cov', 'true')
+s.setLogic('QF_NRA')
+sm_ = SymbolManager(s)
+ip = InputParser(s, sm_)
+ip.setStringInput(cvc5.InputLanguage.SMT_LIB_2_6, sys.stdin.read() + '\n(check-sat)\n', 'q')
+res = 'unknown'
+while True:
+    cmd = ip.nextCommand()
+    if cmd.isNull():
+        break
+    out = cmd.invoke(s, sm_)
+    if out and out.strip() in ('sat', 'unsat', 'unknown'):
+        res = out.strip()
+print(res)
+"""
+
+
 def _run_cvc5(smt2, ms):
-    """cvc5 (Python API 1.4, coverings-based nonlinear solver) on the SMT-LIB text of the z3 query"""
-    import cvc5
-    from cvc5 import InputParser, SymbolManager
-    s = cvc5.Solver()
-    s.setOption('nl-cov', 'true')
-    s.setOption('tlimit-per', str(int(ms)))
-    s.setLogic('QF_NRA')
-    sm_ = SymbolManager(s)
-    ip = InputParser(s, sm_)
-    ip.setStringInput(cvc5.InputLanguage.SMT_LIB_2_6, smt2 + '\n(check-sat)\n', 'q')
-    res = None
-    while True:
-        cmd = ip.nextCommand()
-        if cmd.isNull():
-            break
-        out = cmd.invoke(s, sm_)
-        if out and out.strip() in ('sat', 'unsat', 'unknown'):
-            res = out.strip()
-    return res or 'unknown'
+    """cvc5 (Python API 1.4, coverings-based nonlinear solver) on the SMT-LIB text of the z3 query, in a
+    subprocess so that the time limit is hard"""
+    try:
+        p = subprocess.run([sys.executable, '-c', _CVC5_SCRIPT], input=smt2, capture_output=True, text=True, timeout=ms / 1000.0 + 2)
+    except subprocess.TimeoutExpired:
+        return 'timeout'
+    out = p.stdout.strip().splitlines()
+    return out[-1] if out else 'error'
+
+
+def _interval_small(r, bound):
+    """|r| <= bound by interval arithmetic over the recorded atom bounds (sound, incomplete)"""
+    try:
+        if not r.d.is_const():
+            return False
+        lo, hi = sc.poly_interval(r.n.scale(1 / r.d.const_val()))
+        if lo is None or hi is None:
+            return False
+        if bound.is_const():
+            b = bound.const()
+        else:
+            if not bound.d.is_const():
+                return False
+            b = sc.poly_interval(bound.n.scale(1 / bound.d.const_val()))[0]
+            if b is None:
+                return False
+        return max(abs(lo), abs(hi)) <= b
+    except Exception:
+        return False
 
 
 def _strip(sig):
